@@ -129,6 +129,21 @@ CLAIMED.update({
     ),
 })
 
+CLAIMED.update({
+    "C16": dict(
+        text=("BLP container arithmetic and the encoder/parser pair on the real code: mip level sizes halve down to 1x1 and byte sizes are "
+              "exact; header encode->parse round trip and published byte offsets for BLP0/1/2 for all field values; one level of raw1 / raw3 / "
+              "DXT1/3/5 / JPEG data goes through the real private encoder functions and the real parsers bit-identically for all contents of "
+              "small shapes; the encoder's locator consistency check; complete two-level chains for raw BGRA and JPEG; truncated headers are "
+              "errors."),
+        design_ref="DESIGN.md section 4, C16; harness/blp/NOTES.md",
+        note=("Trusted: an integer model replaces libm f32::log2 in mipmaps_count (equality after `as usize` checked natively for sides "
+              "0..=70000). Outside: all of convert/ (Kani ICE on image::imageops::resize) - pixel exactness, palette membership, alpha "
+              "quantisation are NOT decided; multi-level palettised/DXT files; images beyond 3x5 pixels. Fixed findings: KF-C16-dxt-blocks, "
+              "KF-C16-mipchain-nonsquare."),
+    ),
+})
+
 NOT_APPLICABLE = {
     "C07": "rebuild is an orchestration over Archive::open + ArchiveBuilder::build through NamedTempFile/persist (file I/O and FFI); Archive::open on even one symbolic field exceeds 14 GB in CBMC; no arithmetic kernel of its own to encode (DESIGN.md section 5)",
     "C09": "quantifies over thread schedules of a rayon pool; Kani/CBMC model no concurrency and rayon's runtime is FFI (DESIGN.md section 5)",
@@ -136,7 +151,7 @@ NOT_APPLICABLE = {
     "C12": "quantifies over kill points and failing system calls of an OS process; the deciding code is tempfile + rename in the kernel/FFI (DESIGN.md section 5)",
     "C20": "property of whole process runs (argument parsing, error propagation to main, stdout); no unit a bounded model checker can drive (DESIGN.md section 5)",
 }
-for _p in ["C13", "C14", "C15", "C16"]:
+for _p in ["C13", "C14", "C15"]:
     NOT_APPLICABLE.setdefault(_p, WIP)
 
 NOTES = ("Exit codes of bin/check: 0 held, 1 violation (replayed), 2 inconclusive (build error, time-out, OOM, vacuous harness, "
